@@ -172,3 +172,6 @@ func DialTimeout(network, address string, timeout time.Duration) (net.Conn, erro
 	}
 	return newConn(fd, s), nil
 }
+
+// WrapFd makes a Conn of an existing simulated socket descriptor (socketpair-style setups).
+func WrapFd(fd int) *Conn { return newConn(fd, ssys.K.SockOf(fd)) }
